@@ -416,6 +416,7 @@ class Ctx:
         self.decisions_txt: List[str] = []
 
     def fresh(self, name, sort):
+        name = name.replace("'", "_prime").replace("|", "_").replace(" ", "_")
         return z3.Const(f"{name}!{next(self.fresh_id)}", sort)
 
     def axiom(self, f):
@@ -1461,6 +1462,8 @@ class Interp:
         raise Unsupported(f"call of {key or fval!r} has no contract", node)
 
     def call_class(self, c: ClassRef, args, kwargs, node):
+        if c.name in self.calls:
+            return self.calls[c.name](self.ctx, args, kwargs)
         if self.ctx.classes.is_subclass(c.name, "BaseException"):
             return ExcVal(c.name, tuple(args))
         b = BUILTINS.get(c.name)
@@ -1799,6 +1802,8 @@ def _b_isinstance(interp, args, kwargs, node):
     ts = t if isinstance(t, tuple) else (t,)
     names = []
     for x in ts:
+        if isinstance(x, Fn) and x.name in interp.ctx.classes.bases:
+            x = ClassRef(x.name)  # a class whose constructor has a call model
         if not isinstance(x, ClassRef):
             raise Unsupported("isinstance with non-class", node)
         names.append(x.name)
